@@ -240,6 +240,11 @@ func (g *genState) dateArgs(a *OpArgs, st MState, farOK bool) {
 		default:
 			a.DY, a.DM, a.DD = addDays(y, m, d, r.Range(-400, 400))
 		}
+		if farOK && r.Chance(1, 10) {
+			// the edges of the calendar: the first and the last representable days
+			e := [][3]int{{0, 1, 1}, {0, 1, 2}, {9999, 12, 31}, {9999, 12, 30}, {0, 12, 31}, {9999, 1, 1}}[r.Intn(6)]
+			a.DY, a.DM, a.DD = e[0], e[1], e[2]
+		}
 		a.Date = fmtDate(a.DY, a.DM, a.DD, r.Chance(1, 4))
 	}
 }
@@ -494,7 +499,7 @@ func (histEngine) generate(property string, seed int64, index int, tier string) 
 	if property == "C11" {
 		opts.maxRecords = r.Pick2([]int{0, 1, 2, 2, 3, 4})
 	}
-	if property == "C05" && r.Chance(1, 4) {
+	if (property == "C05" || property == "C03") && r.Chance(1, 4) {
 		// files in which closing the open range makes the file shorter (a write path that does
 		// not truncate leaves the old tail behind)
 		opts.longQ, opts.wantOpen = true, 1
@@ -576,6 +581,45 @@ func (histEngine) generate(property string, seed int64, index int, tier string) 
 			tr.Entries = []GEntry{{Value: "1h"}}
 		}
 		if r.Chance(2, 3) {
+			docA.Records = append(docA.Records, tr)
+		}
+	}
+	if property == "C11" && r.Chance(1, 4) {
+		// a target that shows only SOME dimensions of style: today's record holds durations only (indentation and
+		// line ending are its own, clock convention / dash spacing / placeholder must come from the other records)
+		// or closed ranges only (no placeholder of its own)
+		found := false
+		mk := func() []GEntry {
+			if r.Chance(2, 3) {
+				return []GEntry{{Value: "45m", Summary: []string{"standup"}}, {Value: "1h30m"}}[:r.Range(1, 2)]
+			}
+			return nil
+		}
+		for i := range docA.Records {
+			rec := &docA.Records[i]
+			if rec.Y == base.Year() && rec.M == int(base.Month()) && rec.D == base.Day() {
+				found = true
+				if es := mk(); es != nil {
+					rec.Entries = es
+				} else {
+					// keep the closed ranges only
+					var keep []GEntry
+					for _, e := range rec.Entries {
+						if !e.Open && strings.Contains(e.Value, ":") {
+							keep = append(keep, e)
+						}
+					}
+					rec.Entries = keep
+				}
+			}
+		}
+		if !found && len(docA.Records) > 0 {
+			tr := GRecord{Y: base.Year(), M: int(base.Month()), D: base.Day(), Indent: docA.Records[0].Indent, EOL: docA.Records[0].EOL, BlankAfter: []string{""}}
+			tr.Date = fmtDate(tr.Y, tr.M, tr.D, strings.Contains(docA.Records[0].Date, "/"))
+			tr.Entries = []GEntry{{Value: "45m", Summary: []string{"standup"}}}
+			if last := &docA.Records[len(docA.Records)-1]; len(last.BlankAfter) == 0 {
+				last.BlankAfter = []string{""}
+			}
 			docA.Records = append(docA.Records, tr)
 		}
 	}
@@ -870,6 +914,10 @@ func genC17(r *Rng, seed int64, index int, tier string) *Scenario {
 				e.Summary = []string{genSummaryText(r)}
 			}
 			rec.Entries = append(rec.Entries, e)
+			if r.Chance(1, 3) {
+				// the open range is not the record's last entry (a `track` or `pause` came after the `start`)
+				rec.Entries = append(rec.Entries, GEntry{Value: r.Pick([]string{"30m", "-15m", "-0m", "2h"}), Summary: []string{"later"}})
+			}
 		}
 		return rec
 	}
